@@ -251,10 +251,19 @@ package ociregistry
 // when the error's detail is not valid JSON.
 //@ pure func wireCode(err error) string =
 //@   (errAs(err, Error) != nil && errAs(err, Error).Code() != "") ? errAs(err, Error).Code() : "UNKNOWN"
+// What errors.Is(err, ErrRangeInvalid) answers for the error types of this
+// package: true if the chain carries the code RANGE_INVALID ((*WireError).Is,
+// same-code, proved above) or an HTTP-status wrapper with status 416
+// ((*httpError).Is, range-invalid-only, proved above). On the client side an
+// answer of status 416 is rebuilt as such a wrapper, so the answer survives a
+// hop exactly when the error goes out with status 416.
+//@ pure func saysRangeInvalid(err error) bool =
+//@   wireCode(err) == "RANGE_INVALID" || (errAs(err, HTTPError) != nil && errAs(err, HTTPError).StatusCode() == 416)
 //@ func MarshalError
 //@   requires err != nil
 //@   modifies nothing
 //@   panics when err != nil
+//@   ensures[an-error-that-says-range-invalid-is-sent-as-416] saysRangeInvalid(err) ==> result.1 == 416
 //@   ensures[status-agrees-with-code] result.1 == specStatus(wireCode(err), errAs(err, HTTPError) != nil ? errAs(err, HTTPError).StatusCode() : 500)
 
 // specStatus is the table of the distribution specification (written from the
